@@ -164,7 +164,7 @@ impl Check for C10 {
                 ctx.sig.u64(*win as u64 ^ min_delay);
                 let res = sh::slot((Vec::<DltMessage>::new(), Vec::<DltMessage>::new(), false));
                 let res2 = res.clone();
-                let msgs = std::sync::Arc::new(to_dlts(&t.trace, 0));
+                let msgs = std::sync::Arc::new(to_dlts(&t.trace, t.index_base));
                 let table = table.clone();
                 let (win, min_delay) = (*win, *min_delay);
                 crate::lc::align_lc_ids();
